@@ -17,7 +17,7 @@ import time
 import traceback
 
 from .core import Explorer, EngineError, PathEnd
-from .interp import AnchorMoved
+from .interp import AnchorMoved, ContractMismatch
 from .values import PyRaise
 from .source import SourceIndex, REPO
 from . import solve
@@ -161,6 +161,10 @@ def run_property(prop, tier='quick', seed=0, only_unit=None, verbose=False):
       status['undecided'].append("%s: contract anchor moved: %s" % (u.name, e))
       mismatch_units.append(u)
       continue
+    except ContractMismatch as e:
+      status['undecided'].append("%s: contract no longer matches the code: %s" % (u.name, e))
+      mismatch_units.append(u)
+      continue
     except EngineError as e:
       status['crash'].append("%s: %s" % (u.name, e))
       mismatch_units.append(u)      # the function-level clauses can still be searched natively
@@ -259,6 +263,8 @@ def run_property(prop, tier='quick', seed=0, only_unit=None, verbose=False):
       refuted_labels.setdefault(ob.label, []).append(ob)
     elif v == 'disagree':
       status['crash'].append("%s: z3 and cvc5 disagree (%s vs %s)" % (ob.label, z[0], r['cvc5'][0]))
+    elif v == 'error':
+      status['crash'].append("%s: solver failed: %s" % (ob.label, str(z[1].get('error', ''))[:200]))
     else:
       unknown_obs.setdefault(ob.label, []).append(ob)
 
